@@ -4,7 +4,7 @@
    catalog history:
      (new <default_partitions> <sessions>)                  -> ok
      (stmt <session> <oracle> <stmt>)                       -> F<fails_at_runtime> S<is_self_insert> <outcome>
-       oracle : (o (none) (extra n ...)) | (o (leak n ...) (extra n ...))
+       oracle : (o (none) (extra)) | (o (leak n ...) (extra))       (the `extra` slot is unused since 2e9960218)
        ref    : (- n) | (s n)
        src    : (rows (c ...) (r ...) 0|1) | (ref <ref>)
        stmt   : (cs s ine) (ds s ie casc) (ct <ref> (c ...) e|i|r) (cv <ref> <ref> orrep) (dt <ref> ie casc)
@@ -13,7 +13,9 @@
        outcome: ok none | ok count n | ok rows c,c | r r r | ok names s.n ... | ok schemas s ... | ok val i z | ok val b 0|1
                 | err exists|notfound|invalid|other
    storage:
-     (selfinsert segsz cap nrows p (order ...) [fuel])  a table of nrows rows loaded by one partition in batches of cap
+     (selfinsert segsz cap ocap nrows p (order ...) [fuel])   (Storage.self_insert: table scan with segment limit)
+     (selfinsert_old segsz cap ocap nrows p (order ...) [fuel]) (Storage.Old.self_insert: the scan before 2e9960218)
+                                                 a table of nrows rows loaded by one partition in batches of cap
                                                  rows, then INSERT INTO t SELECT * FROM t with p partitions, each
                                                  partition run to completion in the given order
                                                  -> total <rows in table> count <sum of rows_inserted> | stuck
@@ -68,8 +70,7 @@ let parse_oracle s : oracle =
         | A "none" :: _ -> None
         | A "leak" :: r -> Some (List.map nn r)
         | _ -> failwith "leak") in
-    let extra = (match items ex with A "extra" :: r -> List.map nn r | _ -> failwith "extra") in
-    { leak = leak; extra = extra }
+    ignore ex; leak
   | _ -> failwith "oracle"
 
 let sn = string_of_n
@@ -117,17 +118,19 @@ let storage () =
        let line = input_line stdin in
        if String.trim line <> "" then begin
          match items (parse_sexp line) with
-         | A "selfinsert" :: segsz :: cap :: nrows :: p :: order :: rest ->
+         | A (("selfinsert" | "selfinsert_old") as which) :: segsz :: cap :: ocap :: nrows :: p :: order :: rest ->
            let fuel = (match rest with [f] -> int_of_string (atom f) | _ -> 100000) in
            let capi = int_of_string (atom cap) in
-           let k = { segsz = nat_of_int (int_of_string (atom segsz)); cap = nat_of_int capi } in
+           let k = { segsz = nat_of_int (int_of_string (atom segsz)); cap = nat_of_int capi;
+                     ocap = nat_of_int (int_of_string (atom ocap)) } in
            let load = batches B.one capi (int_of_string (atom nrows)) [] @ [LFinalize O] in
            (match run k (writers [] (nat_of_int 1)) load with
             | None -> print_endline "stuck load"
             | Some c0 ->
               let pn = nat_of_int (int_of_string (atom p)) in
               let ord = List.map (fun x -> nat_of_int (int_of_string (atom x))) (items order) in
-              (match run_order k (nat_of_int fuel) (self_insert c0.segs pn) ord with
+              let start = if which = "selfinsert" then self_insert c0.segs pn else Old.self_insert c0.segs pn in
+              (match run_order k (nat_of_int fuel) start ord with
                | None -> print_endline (Printf.sprintf "unfinished after %d scan calls of one partition" fuel)
                | Some c ->
                  print_endline (Printf.sprintf "total %s count %d complete %b segments %d"
@@ -135,7 +138,7 @@ let storage () =
                                   (List.length c.segs))))
          | [A "failinsert"; segsz; cap; nb] ->
            let capi = int_of_string (atom cap) in
-           let k = { segsz = nat_of_int (int_of_string (atom segsz)); cap = nat_of_int capi } in
+           let k = { segsz = nat_of_int (int_of_string (atom segsz)); cap = nat_of_int capi; ocap = nat_of_int capi } in
            let load = batches B.one capi (capi * int_of_string (atom nb)) [] in
            (match run k (writers [] (nat_of_int 1)) load with
             | None -> print_endline "stuck"
